@@ -169,7 +169,10 @@ def judge_reserve(line):
                     return (i, "pop %s although the active windows of %s %s a body of %d" %
                             ("allowed" if b == "t" else "refused", ws, "do not admit" if not ok else "admit", size))
                 exp = [(w[0], w[1] + 1, w[2], w[3] + size) if a else w for a, w in zip(active, ws)] if ok else ws
-                if got != exp:
+                # a window without limits (inactive) is not constrained by the property: the code leaves it alone,
+                # charging it exactly would be equally fine
+                exp2 = [(w[0], w[1] + 1, w[2], w[3] + size) for w in ws] if ok else ws
+                if got != exp and got != exp2:
                     return (i, "%s pop of a body of %d changed the windows %s -> %s, expected %s (all or nothing)" %
                             ("allowed" if ok else "refused", size, ws, got, exp))
             # else: some active window would wrap - outside the hypothesis (known finding F32)
